@@ -177,7 +177,8 @@ def oracle_sweep(ctx, pool, configs):
 
 
 def run(ctx):
-    ctx.lean_stage([], ["Verif.Props.C07"])
+    ctx.lean_stage([], ["Verif.Props.C07", "Verif.Props.ScanRules"])
+    __import__("blocks").scanrules(ctx)      # mdX_reports_in_range for ten scan-only token rules (every report sits on a token of the stream; MD026 delta bounds)
     stats, samples = engine_correspondence(ctx, 60 if ctx.quick() else 600)
     ids, _ = E.builtin_meta()
     res = [t for _, t in docs.rule_resources()]
